@@ -26,7 +26,8 @@ def run_one(seed, preset=None, tier="quick", want_case=False):
                 "var_pct": t.choose([25, 45, 10, 0]), "skip_pct": t.choose([12, 25]), "directive_vars": t.chance(70),
                 "skip_null_pct": t.choose([0, 30])}
 
-    r = run_single(ID, seed, preset, want_case, schema_knobs=schema_knobs, doc_knobs=doc_knobs)
+    from simv.gen.document import mirror_post
+    r = run_single(ID, seed, preset, want_case, schema_knobs=schema_knobs, doc_knobs=doc_knobs, doc_post=mirror_post)
     if r.get("early"):
         return strip_private(r)
     plan, case, out = r["_plan"], r["_case"], r["_out"]
